@@ -61,12 +61,13 @@ USE_OPS = ["parallel_ubm_stats", "parallel_model_use", "ubm_acc_stats", "ubm_tra
            "isv_score_array", "jfa_score_array", "isv_estimate", "jfa_estimate", "isv_transform",
            "iv_project", "iv_transform", "linear_scoring", "stats_add", "stats_iadd",
            "stats_accumulate_recycled",
-           "lin_transform", "map_ll"]
+           "lin_transform", "map_ll", "map_snapshot_refit"]
 NEEDS = {"km_use": "km", "km_varw": "km", "isv_enroll": "isv", "jfa_enroll": "jfa",
          "isv_enroll_array": "isv", "jfa_enroll_array": "jfa", "isv_score": "z_isv",
          "jfa_score": "yz_jfa", "isv_score_array": "z_isv", "jfa_score_array": "yz_jfa",
          "isv_estimate": "isv", "jfa_estimate": "jfa", "isv_transform": "isv",
-         "iv_project": "iv", "iv_transform": "iv", "lin_transform": "lin", "map_ll": "map"}
+         "iv_project": "iv", "iv_transform": "iv", "lin_transform": "lin", "map_ll": "map",
+         "map_snapshot_refit": "map"}
 PRODUCES = {"kmeans_fit": "km", "gmm_ml_fit": "gmm", "gmm_map_fit": "map", "isv_fit": "isv",
             "jfa_fit": "jfa", "iv_fit": "iv", "isv_fit_array": "isv", "jfa_fit_array": "jfa",
             "wccn_fit": "lin", "whitening_fit": "lin", "isv_enroll": "z_isv",
@@ -545,6 +546,30 @@ def _call(pool, o, rec, label):
     if name == "map_ll":
         m = pool.models["map"]
         return [m.log_likelihood(X), m.acc_stats(X)], None
+    if name == "map_snapshot_refit":
+        # the program snapshots its adapted machine (deep copy: the snapshot owns a copy of the
+        # prior), keeps using the original, re-purposes the prior object it owns, and then trains
+        # the snapshot: the snapshot must behave as it did before the prior changed
+        import copy as _copy
+        snap = _copy.deepcopy(pool.models["map"])
+        ref = _copy.deepcopy(snap).fit(X)
+        ref = [np.array(ref.means), np.array(ref.variances), np.array(ref.weights)]
+        restore = None
+        if np.asarray(pool.prior.means).flags.writeable:
+            restore = _scribble(pool, {"target": ("prior_means", "prior_variances",
+                                                  "prior_weights")[o["np_seed"] % 3], "idx": 0})
+            rec.faults["F7_scribble_prior_while_snapshot_lives"] = \
+                rec.faults.get("F7_scribble_prior_while_snapshot_lives", 0) + 1
+        try:
+            got = snap.fit(X)
+            got = [np.array(got.means), np.array(got.variances), np.array(got.weights)]
+        finally:
+            if restore is not None:
+                restore()
+        if res_digest(ref) != res_digest(got):
+            raise _ResultFollowsOperand("a deep-copied snapshot of a MAP machine follows later "
+                                        "changes to the arrays of the original's prior")
+        return got, None
     if name == "km_use":
         km = pool.models["km"]
         return [km.transform(X), km.predict(X)], None
